@@ -186,3 +186,13 @@ Theorem C08_unadorned_disj_list : forall its, Forall (fun it => ascending (it_el
   una_elems (una_or its) = at_least 1 (map it_elems its).
 Proof. exact unadorned_disj_list. Qed.
 Print Assumptions C08_unadorned_disj_list.
+
+(* the scorch term field reader (also the unadorned one) over a well-formed snapshot: every
+   forward program with non-negative targets *)
+Theorem C08_tfr_cursor : forall unadorned segs offs prog,
+  wf_segs segs offs -> (forall o, nth_error offs O = Some o -> o = 0) ->
+  Forall (fun c => match c with Advance t => 0 <= t | Next => True end) prog ->
+  forward (tfr_global segs offs) prog = true ->
+  tfr_run (tfr_init unadorned segs offs) prog = Some (run_spec (tfr_global segs offs) prog).
+Proof. exact tfr_cursor. Qed.
+Print Assumptions C08_tfr_cursor.
